@@ -617,7 +617,7 @@ def compared(M, fq, param):
     return None
 
 
-def r01_9(rep, M, rid):
+def r01_9(rep, M, rid, cluster_context=False):
     PFI = PF + ".__init__"
     GR = PF + ".get_region"
     table = [
@@ -635,6 +635,9 @@ def r01_9(rep, M, rid):
         (SBC + "._clean_clusters", "bond_threshold", GEO + ".get_clusters", "threshold"),
         (SBC + "._merge_clusters.merge", "bond_threshold", CLUSTER_INIT, "bond_threshold"),
     ]
+    if not cluster_context:
+        # radii / bond threshold kept on a Cluster only serve its dimensionality shortcut (C13, C03), not the clustering itself
+        table = [t for t in table if t[2] != CLUSTER_INIT]
     flows = {}
     for fq, p, callee, cp in table:
         M.func(fq)
@@ -1005,7 +1008,7 @@ def run(rep, ctx):
     rep.floor("R01.6", 4)
     rep.floor("R01.7", 2)
     rep.floor("R01.8", 2)
-    rep.floor("R01.9", 16)
+    rep.floor("R01.9", 13)
     rep.floor("R01.10", 60)
 
 
